@@ -1128,7 +1128,7 @@ ldb_record_background_error(ldb_t *db, int status) {
    log-file/memtable and writes a new descriptor iff successful.
    Errors are recorded in bg_error. */
 static void
-ldb_compact_memtable(ldb_t *db) {
+ldb_compact_memtable(ldb_t *db, int in_compaction) {
   ldb_version_t *base;
   ldb_edit_t edit;
   int rc = LDB_OK;
@@ -1144,7 +1144,10 @@ ldb_compact_memtable(ldb_t *db) {
 
   ldb_version_ref(base);
 
-  rc = ldb_write_level0_table(db, db->imm, &edit, base);
+  /* While a compaction is running, its output is not part of "base" yet:
+     a table pushed below level 0 now could overlap that output once it
+     is installed. Level 0 is always safe. */
+  rc = ldb_write_level0_table(db, db->imm, &edit, in_compaction ? NULL : base);
 
   ldb_version_unref(base);
 
@@ -1363,7 +1366,7 @@ ldb_do_compaction_work(ldb_t *db, ldb_cstate_t *state) {
       ldb_mutex_lock(&db->mutex);
 
       if (db->imm != NULL) {
-        ldb_compact_memtable(db);
+        ldb_compact_memtable(db, 1);
 
         /* Wake up make_room_for_write() if necessary. */
         ldb_cond_broadcast(&db->background_work_finished_signal);
@@ -1537,7 +1540,7 @@ ldb_background_compaction(ldb_t *db) {
   ldb_mutex_assert_held(&db->mutex);
 
   if (db->imm != NULL) {
-    ldb_compact_memtable(db);
+    ldb_compact_memtable(db, 0);
     return;
   }
 
